@@ -144,6 +144,24 @@ def coq_prop(prop_file, timeout=1500):
             "assumptions": assumptions, "answers": len(answers)}
 
 
+def coqchk(prop_file, timeout=1500):
+    """independent re-check of the compiled property file and everything it
+    depends on (thorough tier); returns (ok, axioms list, raw summary)"""
+    mod = "Compio.Prop." + os.path.basename(prop_file)[:-2]
+    rc, out = sh("coqchk -silent -o -Q model Compio.Model -Q thm Compio.Thm -Q prop Compio.Prop "
+                 "-Q gen Compio.Gen %s" % mod, timeout, cwd=COQ)
+    summary = out[out.find("CONTEXT SUMMARY"):] if "CONTEXT SUMMARY" in out else out[-1500:]
+    axioms = []
+    m = re.search(r"\* Axioms:(.*?)\n\s*\n\* Constants", summary, re.S)
+    if m:
+        body = m.group(1).strip()
+        if body != "<none>":
+            axioms = [l.strip() for l in body.splitlines() if l.strip()]
+    clean = (rc == 0 and "type-in-type: <none>" in summary and "unsafe (co)fixpoints: <none>" in summary
+             and "positivity is assumed: <none>" in summary)
+    return clean, axioms, summary
+
+
 def hygiene():
     """no Admitted/admit/Axiom/... anywhere in the development"""
     bad = []
